@@ -220,6 +220,13 @@ impl<T> Pool<T> {
     /// See [`PoolError`] for details.
     pub async fn timeout_get(&self, timeout: Option<Duration>) -> Result<Object<T>, PoolError> {
         let inner = self.inner.as_ref();
+        // Account for this caller right away so `Status::waiting` covers
+        // callers that are still waiting for an object. This is undone if
+        // the call fails or its future is dropped.
+        let _ = inner.available.fetch_sub(1, Ordering::Relaxed);
+        let waiting = UndoOnDrop(|| {
+            let _ = inner.available.fetch_add(1, Ordering::Relaxed);
+        });
         let permit = match (timeout, inner.config.runtime) {
             (None, _) => inner
                 .semaphore
@@ -247,7 +254,7 @@ impl<T> Pool<T> {
         }
         .ok_or(PoolError::Closed)?;
         permit.forget();
-        let _ = inner.available.fetch_sub(1, Ordering::Relaxed);
+        std::mem::forget(waiting);
         Ok(Object {
             pool: Arc::downgrade(&self.inner),
             obj: Some(obj),
@@ -381,6 +388,15 @@ impl<T> Pool<T> {
                 0
             },
         }
+    }
+}
+
+/// Runs the given closure when dropped.
+struct UndoOnDrop<F: Fn()>(F);
+
+impl<F: Fn()> Drop for UndoOnDrop<F> {
+    fn drop(&mut self) {
+        (self.0)()
     }
 }
 
